@@ -262,20 +262,13 @@ theorem substBody_mem' (m : Macro) : ∀ body : List Tok, (∀ t ∈ body, t.kin
 theorem mkHp_nonident (ms0 : List Macro) (hs : List Name) (t : Tok) (h : t.kind ≠ .TIDENT) : mkHp ms0 hs t = mkH hs t := by
   simp [mkHp, mkH, isMac, h]
 
-/-- **`expand` on an invocation in the text whose arguments may name object-like macros**, against
-one step of the reference, for every continuation `X` -/
-theorem expand_callP (ms0 : List Macro) (hTb : TblOK ms0) (n : Nat) (s1 s2 : St) (T lp : Tok) (r' : List Tok) (F : Macro)
-    (args : List (List Tok)) (rest : List Tok) (g : GoodP ms0 s1) (hctx : s1.ctx = []) (hraw : s1.raw = lp :: r')
-    (h1 : T.kind = .TIDENT) (h2 : T.hide = false) (h3 : macroget ms0 (T.lit.getD []) = some F)
-    (h4 : F.func = true) (h5 : lp.kind = .TLPAREN)
-    (h6 : collect F.params 0 0 [] [] r' = .ok (args, rest))
-    (h7 : ∀ x ∈ r'.take (r'.length - rest.length), ArgTokOK ms0 x) (h8 : ∀ a ∈ args, a ≠ [])
-    (h : exec n (.expand T) s1 = .ok s2) :
-    GoodP ms0 s2 ∧ s2.raw = rest ∧ s2.rb = true ∧
-    ∃ seg rp, r' = seg ++ rp :: rest ∧ (∀ x ∈ seg ++ [rp], ArgTokOK ms0 x) ∧
-      ∃ c, ∀ K, c ≤ K → ∀ X, outE (expandH false (K + 1) (tblF ms0)
-          (.tok (mkHp ms0 [] T) :: .tok (mkHp ms0 [] lp) :: (seg.map (iP ms0) ++ iP ms0 rp :: X))) =
-        outE (expandH false K (tblF ms0) (absX ms0 s2 X)) := by
+/-- **`expand` on an invocation in the text** whose arguments may name object-like macros and hold
+complete invocations, against one step of the reference, for every continuation `X`: the
+inductive step (the statement for less fuel is what the argument loop needs for nested invocations) -/
+theorem callSpec_step (ms0 : List Macro) (hTb : TblOK ms0) (n : Nat) (hcs : ∀ m, m < n → CallSpec ms0 m) :
+    CallSpec ms0 n := by
+  intro s1 s2 T lp r' F args rest g hctx hraw h1 h2 h3 h4 h5 h5' h6 h7ok h8 h
+  have h7 : ∀ x ∈ r'.take (r'.length - rest.length), RawOK x := h7ok.raw
   have hmem0 := macroget_mem h3
   have hsf0 := hTb.func F hmem0.1 h4
   obtain ⟨F', hF', hs⟩ := macroget_stat_some g.stat.symm h3
@@ -285,7 +278,7 @@ theorem expand_callP (ms0 : List Macro) (hTb : TblOK ms0) (n : Nat) (s1 s2 : St)
   have hbne : F'.body ≠ [] := by rw [hse.2.2.2]; exact hbne0
   have hcol : collect F'.params 0 0 [] [] r' = .ok (args, rest) := by rw [hse.2.2.1]; exact h6
   obtain ⟨stL, ARGS, gL, hcL, hrL, hrel, hrb, hraw2, hctx2, hmac2, hdep2, hprag2, hppnl2⟩ :=
-    expand_funclikeP ms0 hTb F' T lp r' s1 s2 args rest n g hctx h1 h2 hF' hsf hbne hraw h5 hcol h7 h8 h
+    expand_funclikeP ms0 hTb F' T lp r' s1 s2 args rest n hcs g hctx h1 h2 hF' hsf hbne hraw h5 hcol h7ok h8 h
   rw [hse.2.2.1] at hrel
   rw [hse.2.2.2, hse.1] at hctx2
   rw [hse.1] at hmac2
@@ -300,8 +293,8 @@ theorem expand_callP (ms0 : List Macro) (hTb : TblOK ms0) (n : Nat) (s1 s2 : St)
     have e1 : r'.length - rest.length = (seg ++ [rp]).length := by rw [hr]; simp; omega
     have e2 : r' = (seg ++ [rp]) ++ rest := by rw [hr]; simp
     rw [e1, e2, List.take_left' rfl]
-  have hok : ∀ x ∈ seg ++ [rp], ArgTokOK ms0 x := by rw [← htake]; exact h7
-  have hargtok : ∀ a ∈ args, ∀ x ∈ a, ArgTokOK ms0 x := by
+  have hok : ∀ x ∈ seg ++ [rp], RawOK x := by rw [← htake]; exact h7
+  have hargtok : ∀ a ∈ args, ∀ x ∈ a, RawOK x := by
     intro a ha x hx
     rcases collect_mem_take F.params r' 0 0 [] [] args rest h6 a ha x hx with h' | h' | ⟨d, hd, _⟩
     · exact h7 x h'
@@ -360,7 +353,7 @@ theorem expand_callP (ms0 : List Macro) (hTb : TblOK ms0) (n : Nat) (s1 s2 : St)
     rw [hb, ← hsub]
     intro hh
     exact hne (List.map_eq_nil_iff.mp hh)
-  refine ⟨?_, hraw2, hrb, seg, rp, hr, hok, ?_⟩
+  refine ⟨?_, hraw2, hrb, ?_, ?_⟩
   · -- GoodP s2
     have hmemL := macroget_mem hFL
     have hFLh : FL.hide = false := by
@@ -408,6 +401,21 @@ theorem expand_callP (ms0 : List Macro) (hTb : TblOK ms0) (n : Nat) (s1 s2 : St)
       simp only [flatG, List.append_nil, List.mem_map] at hL
       obtain ⟨_, _, rfl⟩ := hL
       simp [liveNames]
+  · -- the frame delivers something
+    intro hh
+    have hm : (flat s2.macros s2.ctx).map (mkHp ms0 [F.name]) = [] := by rw [hh]; rfl
+    rw [hexact] at hm
+    have hne2 : hsadd [F.name] (subst (fun i => (splitTop (seg.length + 1) 0 (seg.map hT) []).getD i [])
+        (fun i => (ARGS.getD i default).toks.map (mkHp ms0 [])) (elems (toDefF F) (toDefF F).body) false) ≠ [] := by
+      intro h0
+      unfold hsadd at h0
+      exact hsne (List.map_eq_nil_iff.mp h0)
+    revert hm
+    generalize hsadd [F.name] (subst (fun i => (splitTop (seg.length + 1) 0 (seg.map hT) []).getD i [])
+        (fun i => (ARGS.getD i default).toks.map (mkHp ms0 [])) (elems (toDefF F) (toDefF F).body) false) = l at hne2
+    cases l with
+    | nil => exact absurd rfl hne2
+    | cons a r => simp [MacroRef.respace]
   · -- the reference
     have hP : ∀ i, i < F.params.length → ∃ J, ∀ K, J ≤ K → (usedPlain (toDefF F) i = true →
         outE (expandH false K (tblF ms0) (((splitTop (seg.length + 1) 0 (seg.map hT) []).getD i []).map Item.tok)) =
@@ -439,7 +447,7 @@ theorem expand_callP (ms0 : List Macro) (hTb : TblOK ms0) (n : Nat) (s1 s2 : St)
             have hmemA : args.getD j [] ∈ args := by
               have : args.getD j [] = args[j] := by simp [List.getD_eq_getElem?_getD, hila]
               rw [this]; exact List.getElem_mem hila
-            have := (hargtok _ hmemA x hx).2.2.2.2.2
+            have := (hargtok _ hmemA x hx).2.2.2.2
             simp [iP, hT, mkHp_nohide ms0 [] x this]
           rw [hAi]
           exact hJ K hK
@@ -461,17 +469,21 @@ theorem expand_callP (ms0 : List Macro) (hTb : TblOK ms0) (n : Nat) (s1 s2 : St)
         rw [hseglen]
         exact hc K hKc i (by simpa [toDefF] using hi) hu)
     rw [hseglen, hkeyl] at this
-    have hL : (Item.tok (mkHp ms0 [] T) :: Item.tok (mkHp ms0 [] lp) :: (seg.map (iP ms0) ++ iP ms0 rp :: X)) =
+    have hL : (iP ms0 T :: iP ms0 lp :: ((r'.take (r'.length - rest.length)).map (iP ms0) ++ X)) =
         (Item.tok (mkH [] T) :: Item.tok (mkH [] lp) :: (seg.map iT ++ Item.tok (hT rp) :: X)) := by
+      rw [htake]
+      show (Item.tok (mkHp ms0 [] T) :: Item.tok (mkHp ms0 [] lp) :: ((seg ++ [rp]).map (iP ms0) ++ X)) = _
+      rw [List.map_append, List.append_assoc]
+      show (Item.tok (mkHp ms0 [] T) :: Item.tok (mkHp ms0 [] lp) :: (seg.map (iP ms0) ++ (iP ms0 rp :: X))) = _
       have e1 : mkHp ms0 [] T = mkH [] T := mkHp_nohide ms0 [] T h2
       have e2 : mkHp ms0 [] lp = mkH [] lp := mkHp_nonident ms0 [] lp (by rw [h5]; decide)
       have e3 : seg.map (iP ms0) = seg.map iT := by
         apply List.map_congr_left
         intro x hx
-        have := (hok x (List.mem_append_left _ hx)).2.2.2.2.2
+        have := (hok x (List.mem_append_left _ hx)).2.2.2.2
         simp [iP, iT, hT, mkHp_nohide ms0 [] x this]
       have e4 : iP ms0 rp = Item.tok (hT rp) := by
-        have := (hok rp (by simp)).2.2.2.2.2
+        have := (hok rp (by simp)).2.2.2.2
         simp [iP, hT, mkHp_nohide ms0 [] rp this]
       rw [e1, e2, e3, e4]
     rw [hL, this]
@@ -495,5 +507,12 @@ theorem expand_callP (ms0 : List Macro) (hTb : TblOK ms0) (n : Nat) (s1 s2 : St)
       rw [this, hann]
     simp only [absX, hflat, hexact]
     rfl
+
+
+/-- **`expand` on an invocation in the text**, against one step of the reference, for any fuel -/
+theorem callSpec_all (ms0 : List Macro) (hTb : TblOK ms0) : ∀ n, CallSpec ms0 n := by
+  intro n
+  induction n using Nat.strongRecOn with
+  | _ n ih => exact callSpec_step ms0 hTb n ih
 
 end CprocVerif.PP
